@@ -44,19 +44,18 @@ def check_frame_writer(ctx, rule, P, fn_key, msg_param, sink_pred, sink_desc):
         return
     s = sites[0]
     segs = B.nf(ev, s.args[1])
-    strong = B.is_strong(segs)
     pad = pinned()["pad_len"]
-    ok = (
-        len(segs) == 3
-        and segs[0][0] == "v"
-        and _is_uint_of_len(segs[0][1], msg_param)
-        and segs[1][0] == "v"
-        and B.peel(segs[1][1]).op == "param"
-        and B.peel(segs[1][1]).a[1] == msg_param
-        and segs[2] == ("pad", pad, 0)
+    shape = lambda sg: (
+        len(sg) == 3
+        and sg[0][0] == "v"
+        and _is_uint_of_len(sg[0][1], msg_param)
+        and sg[1][0] == "v"
+        and B.peel(sg[1][1]).op == "param"
+        and B.peel(sg[1][1]).a[1] == msg_param
+        and sg[2] == ("pad", pad, 0)
     )
     # accepted equivalent: resize(32,0) guarded by len<32 is normalised by the evaluator as ("resize",..): treat as weak
-    weak = not strong and not B.clobbers(segs)
+    ok, weak = B.decide(segs, shape)
     if B.may_truncate(segs) and not ok:
         ctx.ob(rule, "%s/frame-truncation" % fn_key, False, "the framed payload goes through a step that can cut bytes off (resize to a length not provably >= the current length, truncate, drain, ..): %s" % B.show_nf(segs), where=where(fn, s.bb))
     ctx.ob(
@@ -315,20 +314,20 @@ def check_compute_y(ctx, rule, P):
         st = B.peel(hs.args[1])
         if st.op == "named" and st.a[2].op == "const":
             salt = bytes.fromhex(st.a[2].a[1]).decode("latin-1")
-    want = (
-        len(segs) == 2
-        and segs[0][0] == "v"
-        and segs[0][1].op == "call"
-        and B.cname(segs[0][1]) == "GroupEncoding::to_bytes"
-        and B.peel(segs[0][1].a[1][0]).op == "param"
-        and B.peel(segs[0][1].a[1][0]).a[1] == "u"
-        and segs[1][0] == "v"
-        and segs[1][1].op == "call"
-        and B.cname(segs[1][1]) == "num::<impl u64>::to_le_bytes"
-        and B.peel(segs[1][1].a[1][0]).op == "param"
-        and B.peel(segs[1][1].a[1][0]).a[1] == "t"
+    shape = lambda sg: (
+        len(sg) == 2
+        and sg[0][0] == "v"
+        and sg[0][1].op == "call"
+        and B.cname(sg[0][1]) == "GroupEncoding::to_bytes"
+        and B.peel(sg[0][1].a[1][0]).op == "param"
+        and B.peel(sg[0][1].a[1][0]).a[1] == "u"
+        and sg[1][0] == "v"
+        and sg[1][1].op == "call"
+        and B.cname(sg[1][1]) == "num::<impl u64>::to_le_bytes"
+        and B.peel(sg[1][1].a[1][0]).op == "param"
+        and B.peel(sg[1][1].a[1][0]).a[1] == "t"
     )
-    weak = not B.is_strong(segs) and not B.clobbers(segs)
+    want, weak = B.decide(segs, shape)
     ctx.ob(rule, "compute_y/layout", ok and (want or weak), "challenge input = %s (pinned: to_bytes(u) ‖ to_le_bytes(t))" % B.show_nf(segs), where=where(fn), sample={"layout": B.show_nf(segs)}, weak=weak)
     ctx.ob(rule, "compute_y/salt", salt == pinned()["salts"]["pok"], "challenge salt = %r (pinned %r)" % (salt, pinned()["salts"]["pok"]), where=where(fn))
 
